@@ -84,7 +84,7 @@ vc.REPLAYERS['harness'] = replay_harness
 
 # =========================================================================== C10
 CONFIGS['P8'] = cfg(N=2, HEAD=1, CAP=4, L=1, CTX=0, feats=('PLANS',))
-CONFIGS['P9'] = cfg(N=3, HEAD=0, CAP=0, L=1, CTX=0, feats=('PLANS',))
+CONFIGS['P9'] = cfg(N=2, HEAD=0, CAP=0, L=1, CTX=0, feats=('PLANS',))
 M_PL = mf('PHASE_REQ', 'REPORT', 'PLAN_EDIT', 'LIFE_EDIT')
 O_PL = og('CORE', 'PLAN', 'REPORT', 'PLAN_REMOVE', 'LOG')
 
@@ -244,8 +244,13 @@ def check_c16(tier):
                 run = run_fsmx(b, nm + '/neutral', ['C16'], d, mfv, ogv | og('LOG'), workers=1, flags=['--neutral'], deadline=200)
                 rs = dict(S(nm, d, mfv, ogv)); rs['header'] = h
                 V.add_fsmx(run, nm, CONFIGS[nm], rs)
-                if run['result']: digs[(nm, h)] = (run['result']['neutral_digest'], run['result']['neutral_tuples'])
-        if len(set(digs.values())) > 1:
+                if run['result']:
+                    digs[(nm, h)] = (run['result']['neutral_digest'], run['result']['neutral_tuples'])
+                    if not run['result']['exhaustive']: digs = None; break
+            if digs is None: break
+        if digs is None:
+            V.caps.append('logging differential (%s family) skipped: a run did not complete' % fam); V.exhaustive = False
+        elif len(set(digs.values())) > 1:
             V.add_violation('logging-perturbs-behaviour', 'the set of (state, call, decisions, callbacks+observations, result) tuples differs between builds without logging, with logging and with verbose logging (%s family): %s' % (fam, {'%s/%s' % k: v for k, v in digs.items()}), dict(kind='differential', family=fam, configs=list(names)))
         else:
             V.extra.setdefault('logging_differentials', []).append({'family': fam, 'builds': list(names), 'tuples': list(digs.values())[0][1] if digs else 0, 'digest': list(digs.values())[0][0] if digs else ''})
@@ -268,7 +273,7 @@ def check_c18(tier):
             specs.append(S(c, ds, m, o, variant=v, flags=['--copy', '--replica'], props=['C18'], share=3 if v == 'msan' else 1))
         if c in ('T2', 'P3', 'P5', 'T3') or tier == 'thorough':
             specs.append(S(c, min(ds, 1) if tier == 'quick' else ds, m, o, variant=SAN_O0, flags=['--copy', '--replica'], props=['C18'], share=2))
-    vc.run_specs(V, specs, tier, budget=200 if tier == 'quick' else 1500)
+    vc.run_specs(V, specs, tier, budget=200 if tier == 'quick' else 3600)
     # containers and the extreme machine sizes under ASan+UBSan
     jobs = []
     for v in ('asan-gcc', 'asan-clang'):
@@ -364,7 +369,7 @@ def check_c19(tier):
             if bi == 0 and U and U != ('PLANS',): continue           # history / serialization programs need the manually activated base (exit, replayEnter, load inactive)
             group = [(f, h) for (f, h) in jobs if set(U) <= set(f)]
             if tier == 'thorough' and U: group = [g for g in group if len(g[0]) <= len(U) + 1 or len(g[0]) >= 7]   # U, U+one more, nearly all
-            nd = {}
+            nd = {}; incomplete = False
             def runone(fh):
                 b, err = built[fh]
                 if err: return (fh, None, err)
@@ -380,8 +385,12 @@ def check_c19(tier):
                     continue
                 rs = dict(S('F', 1, 0, 0)); rs['header'] = h
                 V.add_fsmx(run, 'F%d' % bi, cfg(feats=f, CAP=(2 if 'PLANS' in f else 0), **base), rs)
-                if run['result']: nd[(f, h)] = (run['result']['neutral_digest'], run['result']['neutral_tuples'])
-            if len(set(nd.values())) > 1:
+                if run['result']:
+                    nd[(f, h)] = (run['result']['neutral_digest'], run['result']['neutral_tuples'])
+                    if not run['result']['exhaustive']: incomplete = True
+            if incomplete:
+                V.caps.append('feature differential for programs using [%s] skipped: a run did not complete' % ' '.join(U)); V.exhaustive = False
+            elif len(set(nd.values())) > 1:
                 ref = nd.get((tuple(U), 'shipped')) or list(nd.values())[0]
                 odd = [k for k, v in nd.items() if v != ref][:5]
                 V.add_violation('unused-feature-changes-behaviour', 'explorer: a program that uses [%s] behaves differently when further, unused features are enabled: %s differ from [%s] (digests %s)' % (' '.join(U) or 'no feature', [(' '.join(k[0]), k[1]) for k in odd], ' '.join(U), sorted(set(nd.values()))), dict(kind='differential', base=base, uses=list(U), odd=[[list(k[0]), k[1]] for k in odd]))
